@@ -6,6 +6,8 @@ import (
 	"time"
 
 	"github.com/MinterTeam/minter-go-node/coreV2/appdb"
+	eventsdb "github.com/MinterTeam/minter-go-node/coreV2/events"
+	"github.com/MinterTeam/minter-go-node/coreV2/state"
 	abciTypes "github.com/tendermint/tendermint/abci/types"
 	db "github.com/tendermint/tm-db"
 )
@@ -46,6 +48,21 @@ func (c *verifCrashDB) DeleteSync(k []byte) error { return c.Delete(k) }
 func VerifHarness_C10_CommitCrash() {
 	disk := db.NewMemDB()
 	bc := verifChain()
+	// the state tree of a chain that started at height 40 and keeps one old
+	// state (the minimum the node's configuration accepts): versions 40 and 41
+	// are on disk when block 42 is committed
+	sdb := db.NewMemDB()
+	st, err := state.NewStateV3(0, sdb, &eventsdb.MockEvents{}, 1, 1, 40)
+	if err != nil {
+		panic(err)
+	}
+	for k := 0; k < 2; k++ {
+		if _, err := st.Commit(); err != nil {
+			panic(err)
+		}
+	}
+	bc.stateDeliver = st
+	bc.stateCheck = state.NewCheckState(st)
 	// block h-1, written completely
 	full := appdb.VerifNewAppDB(disk)
 	full.AddVersion(V3, 0)
@@ -92,6 +109,10 @@ func VerifHarness_C10_CommitCrash() {
 	verifAssert("C10:never-reports-old-height-with-new-hash", !oldHeightNewHash)
 	verifAssert("C10:never-reports-new-height-with-old-hash", !newHeightOldHash)
 	verifAssert("C10:info-pair-consistent", isPrev || isNew || oldHeightNewHash || newHeightOldHash)
+	// the restarted node loads the state tree at the height it reports
+	// (initState): that version must still be on disk, whatever was pruned
+	_, errLoad := state.NewStateV3(uint64(info.LastBlockHeight), sdb, &eventsdb.MockEvents{}, 1, 1, 40)
+	verifAssert("C10:reported-height-has-its-state-on-disk", errLoad == nil)
 	if info.LastBlockHeight == 42 {
 		verifAssert("C10:reported-height-has-its-emission", re.Emission().Cmp(e1) == 0)
 		if verifConfig("newPrice") == 1 {
